@@ -88,7 +88,7 @@ def sbl(bs, bullet="*", em="*"):
         elif k == "lit": out.append(b[1])
     return "\n\n".join(out) + "\n"
 
-INL = [[("t", "plain words")], [("t", "an "), ("em", [("t", "emph")]), ("t", " word")], [("t", "a "), ("st", [("t", "strong")]), ("t", " b")], [("t", "x "), ("code", "c<&>d"), ("t", " y")],
+INL = [[("t", "plain words")], [("t", "an "), ("em", [("t", "emph")]), ("t", " word")], [("t", "a "), ("st", [("t", "strong")]), ("t", " b")], [("t", "x "), ("code", "c<&>d"), ("t", " y")], [("t", "x "), ("code", "a \\<b\\> \\\" \\& \\* \\\\ z"), ("t", " y")],
        [("t", "see "), ("link", [("t", "text")], "http://x.y/", "")], [("link", [("em", [("t", "e")])], "http://x.y/", "Ti tle"), ("t", " end")], [("t", "l1"), ("br",), ("t", "l2")], [("auto", "http://a.b/c")],
        [("t", "a "), ("esc", "*"), ("t", " b "), ("ent", "copy"), ("t", " & < c")], [("st", [("t", "s "), ("em", [("t", "e")])]), ("t", " t")], [("t", "i "), ("img", "alt", "i.png", ""), ("t", " j")],
        [("t", "x"), ("raw", "^2^", "<sup>2</sup>"), ("t", " H"), ("raw", "~2~", "<sub>2</sub>"), ("t", "O")],
@@ -101,7 +101,7 @@ LITS = [
  ("lit", "![figure cap](f.png)", '<figure>\n<img src="f.png" alt="figure cap" />\n<figcaption>figure cap</figcaption>\n</figure>', True),
 ]
 LEAF = [("p", i) for i in INL] + [("h", 1, INL[0], "atx"), ("h", 2, INL[1], "atxc"), ("h", 1, INL[0], "setext"), ("h", 2, INL[2], "setext"), ("h", 6, INL[3], "atx"), ("hr",),
-                                  ("fence", "code <&>\nl2", "perl"), ("fence", "x", None), ("icode", "ind <&>\n  more")] + LITS
+                                  ("fence", "code <&>\nl2", "perl"), ("fence", "x", None), ("icode", "ind <&>\n  more"), ("fence", "esc \\< \\> \\\" \\& \\*", None), ("icode", "esc \\< \\> \\\" \\&")] + LITS
 NP = len(INL)
 def containers():
     out = []
